@@ -132,6 +132,25 @@ def handle (op : String) (req : Json) : P (List (String × Json)) := do
     | "broadcast_arrays" => pure [("lib", encExcept (fun l => Json.arr (l.map encDimArray).toArray) (Lib.broadcastArrays as))]
     | "align_dims" => pure [("lib", encExcept (fun l => Json.arr (l.map encDimArray).toArray) (Lib.alignDims as))]
     | f => throw s!"unknown multi fn {f}"
+  | "put" => do
+    let as ← arrays req
+    let a ← match as with | a :: _ => pure a | [] => throw "no array"
+    let rk ← kind (fldD req "rkind" (Json.str "f"))
+    let cast ← bool (fldD req "cast" (Json.bool false))
+    match (← optOf (listOf bool) (fldD req "boolnd" Json.null)) with
+    | some m =>
+      let mask : NDArr Bool := { shape := a.vals.shape, get := fun i => m.getD (ravel a.vals.shape i) false }
+      pure [("lib", encExcept encDimArray (Lib.putBool a mask (Cell.rhs 0) rk cast))]
+    | none =>
+      let ui ← userIndex (← fld req "index")
+      let cfg ← indexCfg (fldD req "cfg" (Json.mkObj []))
+      let rhs : RHS Cell ← match (← optOf (listOf nat) (fldD req "rshape" Json.null)) with
+        | none => pure (RHS.scalar (Cell.rhs 0))
+        | some shape => pure (RHS.arr { shape := shape, get := fun i => Cell.rhs (ravel shape i) })
+      let r := Lib.put a ui rhs rk cfg cast
+      -- reading back the same index
+      let rb := r.bind (fun x => Lib.take x ui cfg)
+      pure [("lib", encExcept encDimArray r), ("readback", encExcept encDimArray rb)]
   | "binop" => do
     -- a op b for two DimArrays; or DimArray with a scalar / ndarray operand
     let as ← arrays req
